@@ -214,6 +214,78 @@ def parallax_case(arg):
     return out
 
 
+def astig_case(arg):
+    """Parallax with defocus AND astigmatism (any axis angle), float oracle: each mean-subtracted virtual image is
+    translated by grad(chi)/(2 pi) at its detector pixel, where chi is the library's own aberration SURFACE
+    (aberration_surface) differentiated numerically - not the analytic gradient routine the reconstruction uses.
+    The translation sign is calibrated on the defocus-only case against TLC's exact rolled images."""
+    case, idx, abset, rot = arg
+    warnings.filterwarnings("ignore")
+    import torch
+    out = []
+    sx, sy, m = case["sx"], case["sy"], case["m"]
+    order = lib_order()
+    vbf = np.array(case["vbf"], dtype=np.float32)[order]
+    want_exact = (np.array(case["rolled"], dtype=np.float64) / (sx * sy))[order]
+    ds = (10.0, 10.0)
+    tag = f"scan={sx}x{sy} ab={abset} rot={rot} case={idx}"
+    try:
+        with contextlib.redirect_stdout(io.StringIO()):
+            from quantem.core.utils.utils import electron_wavelength_angstrom
+            from quantem.diffractive_imaging.complex_probe import (aberration_surface, evaluate_probe, polar_coordinates,
+                                                                   spatial_frequencies)
+            lam = electron_wavelength_angstrom(ENERGY)
+
+            def oracle(d, ab, rot_deg, sign):
+                kxa, kya = spatial_frequencies(d.gpts, d.sampling, rotation_angle=rot_deg, device="cpu")
+                kxa, kya = kxa.double(), kya.double()
+                h = 1e-4 * DK
+
+                def chi(kx, ky):
+                    k, phi = polar_coordinates(kx, ky)
+                    return aberration_surface(k * lam, phi, lam, {k_: torch.tensor(float(v), dtype=torch.float64) for k_, v in ab.items()})
+                gx = (chi(kxa + h, kya) - chi(kxa - h, kya)) / (2 * h) / (2 * np.pi)     # Angstrom
+                gy = (chi(kxa, kya + h) - chi(kxa, kya - h)) / (2 * h) / (2 * np.pi)
+                sh = torch.stack((gx[d.bf_mask], gy[d.bf_mask]), -1).numpy()             # (nbf, 2) in Angstrom
+                qx = np.fft.fftfreq(sx, d=ds[0])[:, None]
+                qy = np.fft.fftfreq(sy, d=ds[1])[None, :]
+                k, phi = polar_coordinates(kxa, kya)
+                W = float(evaluate_probe(k.float() * lam, phi.float(), d.semiangle_cutoff, d.angular_sampling, lam, aberration_coefs={})
+                          .abs().square()[d.bf_mask].sum())
+                zero = vbf - vbf.mean(axis=(1, 2), keepdims=True)
+                res = np.empty_like(zero, dtype=np.float64)
+                for p in range(zero.shape[0]):
+                    ramp = np.exp(sign * 2j * np.pi * (qx * sh[p, 0] + qy * sh[p, 1]))
+                    res[p] = np.fft.ifft2(np.fft.fft2(zero[p]) * ramp).real
+                return res, W
+            # sign calibration on the exact defocus-only case (rotation 0)
+            c10 = m * ds[0] / (lam * DK)
+            d0, _ = make(vbf, ds, {"C10": c10}, 0.0)
+            sign = None
+            for sg in (+1, -1):
+                o, W = oracle(d0, {"C10": c10}, 0.0, sg)
+                if np.abs(o - want_exact).max() < 1e-6 * max(1.0, np.abs(want_exact).max()):
+                    sign = sg
+            if sign is None:
+                raise MachineryError("float parallax oracle does not reproduce TLC's exact defocus case with either sign")
+            d1, _ = make(vbf, ds, abset, rot)
+            o, W = oracle(d1, {k_: v for k_, v in abset.items()}, rot, sign)
+            for bsz in (None, 2):
+                r1 = d1.reconstruct(deconvolution_kernel=["prlx", "parallax", "tcbf"][idx % 3], parallax_flip_phase=False, verbose=0,
+                                    max_batch_size=bsz).corrected_stack.numpy() * W
+                dev = float(np.abs(r1 - o).max())
+                if dev > 2e-3 * max(1.0, float(np.abs(o).max())):
+                    kind = "astigmatism" if abset.get("C12") else "defocus"
+                    out.append((f"C04:parallax:{kind}-shift", f"{tag}: W*stack differs from the images translated by grad(chi)/2pi by {dev:.3g} "
+                                f"(scale {float(np.abs(o).max()):.3g})"))
+                    break
+    except MachineryError:
+        raise
+    except Exception as ex:  # noqa: BLE001
+        out.append(("C04:parallax:raised", f"{tag}: {type(ex).__name__}: {str(ex)[:200]}"))
+    return out
+
+
 AB_VAL = {"C10": {0: 0.0, 1: 150.0, 2: -80.0}, "C12": {0: 0.0, 1: 60.0, 2: 35.0}}
 ROT_VAL = {0: 0.0, 1: 17.0}
 
@@ -327,6 +399,17 @@ def check(rep, tier, seed):
         rep.add_distinct(["parallax", c["vbf"], c["m"]])
         for key, msg in probs:
             rep.mismatch(key, msg, {"parallax_case": c, "message": msg})
+    # defocus + astigmatism at any axis angle, float oracle calibrated on TLC's exact defocus cases
+    absets = [{"C10": 120.0, "C12": 70.0, "phi12": 0.4}, {"C10": -90.0, "C12": 55.0, "phi12": -1.1}, {"C12": 80.0, "phi12": 0.9},
+              {"C10": 60.0, "C12": 40.0, "phi12": 0.0}, {"C10": 140.0}]
+    ajobs = [(c, i, absets[i % len(absets)], [0.0, 17.0][(i // len(absets)) % 2]) for i, c in enumerate(cases[: (10 if quick else 60)])]
+    res = pmap(astig_case, ajobs, procs=16, chunk=1)
+    for j, probs in zip(ajobs, res):
+        rep.add_traces(1)
+        rep.add_eval(2)
+        rep.add_distinct(["astig", j[0]["vbf"], j[2], j[3]])
+        for key, msg in probs:
+            rep.mismatch(key, msg, {"astig_case": {"case": j[0], "ab": j[2], "rot": j[3]}, "message": msg})
     # hyper-parameter layers (HyperState.tla)
     rh = tlc.run_tlc("HyperState", "HyperMC.cfg", spec_dir=SPEC, workers=8, timeout=900)
     rep.add_tlc(rh, "HyperState: OverrideWins / RestFromBelow / RotationLayers / CallsArePure")
@@ -363,6 +446,9 @@ def replay(path):
     if "job" in rp:
         j = rp["job"]
         out = stream_case((tuple(j["scan"]), j["kernel"], j["up"], j["variant"], False))
+    elif "astig_case" in rp:
+        a = rp["astig_case"]
+        out = astig_case((a["case"], 0, a["ab"], a["rot"]))
     elif "hyper_case" in rp:
         out = hyper_case((rp["hyper_case"], 0)) + hyper_case((rp["hyper_case"], 1)) + hyper_case((rp["hyper_case"], 2))
     else:
